@@ -282,7 +282,7 @@ def _dag_len(ops):
 
 
 _NODE = {"ExtendNode": "extend", "ProjectNode": "project", "SelectRowsNode": "select_rows", "SelectColumnsNode": "select_columns",
-         "DropColumnsNode": "drop_columns", "RenameColumnsNode": "rename", "MapColumnsNode": "map_columns", "OrderRowsNode": "order_rows",
+         "DropColumnsNode": "drop_columns", "RenameColumnsNode": "rename", "MapColumnsNode": "map_columns", "ConvertRecordsNode": "unpivot", "OrderRowsNode": "order_rows",
          "NaturalJoinNode": "join", "ConcatRowsNode": "concat", "TableDescription": "table"}
 
 
